@@ -26,8 +26,10 @@ LEVEL_TEXT = ("Theorems in Coq (Properties/C17.v), for every history of user req
               "real code: the client as found skipped everything committed between an early reconnect on an empty shard and the reconnect "
               "(c17_resume_empty_shard_refuted, O-17, repaired in /repo); without monotone timestamps a batch inside the retention can be trimmed "
               "(c17_trim_nonmonotone_refuted, hypothesis documented). Two further defects found by the harness and repaired in /repo: an empty or "
-              "same-start delete-range replaced what the batch said about its start key (O-17b), the trimmer decoded batches with a UTF-8-validating "
-              "decoder and stopped trimming for good after one non-UTF-8 key (O-17c).")
+              "same-start delete-range replaced what the batch said about its start key (O-17b, c17_range_overwrite_refuted), the trimmer decoded batches "
+              "with a UTF-8-validating decoder and stopped trimming for good after one non-UTF-8 key (O-17c), the tracker updated its offset outside "
+              "the lock its waiters check it under, so a waiting subscriber could miss the wake-up of its own commit and get the batch only with the "
+              "next one (O-17d).")
 LEVEL_NOTE = ("Partial in these respects. (1) What is proved is the model; the real code is tied to it by differential runs (kv.DB, LeaderController, client manager). "
               "(2) Histories in the theorems: requests on user keys (C12's user_request), notifications enabled throughout; session-manager requests and "
               "notification switching by term options are covered by the harness only (plus c17_no_internal_key_any_request). (3) Streams are analysed "
@@ -55,41 +57,15 @@ RULE = ("db leg (nseq): one case = 12-42 requests against a fresh real kv.DB (pl
         "request is compared with an independent reference and with the model, every changed record must be covered by its batch. leader leg (nseq): one case "
         "= 10-28 steps on a real LeaderController (writes, raw GetNotifications from every start offset, real client managers connecting / receiving k "
         "batches / breaking / continuing, leader changes to a node replaying the log, trimming), timestamps as assigned by the leader; distinct by generator "
-        "sub-seed. uncommitted leg: rf=2, 1-4 entries appended but not acknowledged. realclient leg: newNotifications with its retry loop on the O-17 scenario.")
+        "sub-seed. uncommitted leg: rf=2, 1-4 entries appended but not acknowledged, then 30000 single writes under one waiting subscriber (every batch must "
+        "arrive before the next write). realclient leg: newNotifications with its retry loop on the O-17 scenario.")
 LEGS = [
-    {"name": "db", "harness": "db", "model": "db", "args": ["-mode", "c17"], "n_quick": 500, "n_thorough": 30000,
+    {"name": "db", "harness": "db", "model": "db", "args": ["-mode", "c17"], "n_quick": 800, "n_thorough": 30000,
      "corpus": "corpus/db17", "timeout": 900, "timeout_thorough": 3000},
-    {"name": "leader", "harness": "notif", "model": "db", "n_quick": 300, "n_thorough": 20000, "timeout": 900, "timeout_thorough": 3000},
+    {"name": "leader", "harness": "notif", "model": "db", "n_quick": 300, "n_thorough": 12000, "timeout": 900, "timeout_thorough": 3000},
     {"name": "uncommitted", "harness": "notif", "model": None, "args": ["-mode", "uncommitted"], "n_quick": 25, "n_thorough": 500, "timeout": 600},
     {"name": "realclient", "harness": "notif", "model": None, "args": ["-mode", "real-client"], "n_quick": 1, "n_thorough": 1, "timeout": 600},
 ]
 REGISTERED = True
 
 
-def run(ctx):
-    """standard_run, with the Coq build restricted to this property's cone (other components under construction cannot break or slow this check)."""
-    import os
-    import core
-    rc, out, dt = core.sh([os.path.join(core.ROOT, "bin", "coqbuild"), "theories/" + PROPERTY_FILE[:-2] + ".vo"], timeout=3300)
-    ctx.proof["build_rc"] = rc
-    ctx.proof["build_s"] = round(dt, 1)
-    ctx.proof["build_target"] = "theories/" + PROPERTY_FILE[:-2] + ".vo (and its dependency cone)"
-    if rc != 0:
-        ctx.proof["build_log_tail"] = out[-3000:]
-    ok_build = rc == 0
-    gate = ctx.gate(PROPERTY_FILE)
-    ctx.proof_obligations(PROPERTY_FILE)
-    ok_pa = ctx.print_assumptions(PROPERTY_FILE) if ok_build else False
-    if not ok_build or gate or not ok_pa:
-        broken = "Coq build" if not ok_build else ("gate: " + "; ".join(gate) if gate else "Print Assumptions of " + PROPERTY_FILE)
-        rp = ctx.write_replay({"broken": "proof obligation: " + broken, "log": out[-4000:]})
-        ctx.violations.append(("proof:" + broken[:80], out[-400:].replace("\n", " | "), rp, True))
-    if ctx.tier == "thorough" and ok_build and not os.environ.get("VERIF_SKIP_COQCHK"):
-        if not ctx.coqchk(PROPERTY_FILE):
-            rp = ctx.write_replay({"broken": "coqchk rejects " + PROPERTY_FILE, "log": ctx.proof.get("coqchk_tail")})
-            ctx.violations.append(("proof:coqchk", "coqchk failed", rp, True))
-    for leg in LEGS:
-        if ctx.replay and ctx.replay.get("leg") and ctx.replay["leg"] != leg["name"]:
-            continue
-        ctx.run_leg(leg)
-    return ctx.finish()
